@@ -436,22 +436,25 @@ bool Hist::opChannelColumn() {
     if (dev == 8) names[1] = names[0];
     size_t nf = n; if (dev == 1) { if (n <= 1) dev = 0; else nf = n - 1; } if (dev == 2) nf = n + 1; if (dev == 9) nf = 0;
     size_t ns = nsub; if (dev == 3) { if (nsub <= 1 && !wild) dev = 4; else ns = nsub ? nsub - 1 : 0; } if (dev == 4) ns = nsub + 1;
+    // "the number of sub-frames supplied differs from the data set" also when only ONE supplied frame (not the first) deviates
+    bool lateOnly = (dev == 3 || dev == 4) && nf >= 2 && rng.chance(45); size_t lateFrame = lateOnly ? 1 + rng.below(nf - 1) : 0;
     std::vector<Frame> frames; std::vector<std::vector<std::vector<SChan> > > nc(nf);
     for (size_t f = 0; f < nf; ++f) {
         Analogs an;
-        for (size_t s = 0; s < ns; ++s) { SubFrame sf; size_t kk = dev == 5 ? 0 : k; if (ragged && f == nf - 1 && s == ns - 1) kk = k - 1; for (size_t i = 0; i < kk; ++i) { Channel c; c.name(names[i]); c.data(bitsf(genFloatBits(rng, specialFloats))); sf.channel(c); } an.subframe(sf); }
+        size_t nsHere = (lateOnly && f != lateFrame) ? nsub : ns;
+        for (size_t s = 0; s < nsHere; ++s) { SubFrame sf; size_t kk = dev == 5 ? 0 : k; if (ragged && f == nf - 1 && s == ns - 1) kk = k - 1; for (size_t i = 0; i < kk; ++i) { Channel c; c.name(names[i]); c.data(bitsf(genFloatBits(rng, specialFloats))); sf.channel(c); } an.subframe(sf); }
         Frame fr; fr.add(an); frames.push_back(fr); nc[f] = takeFrame(fr).subs;
     }
     static const char* dn[] = {"valid", "frames-1", "frames+1", "sub-1", "sub+1", "no_channels", "existing_name", "second_existing", "second_duplicates_first", "no_frames"};
-    std::ostringstream a; a << "dev=" << (ragged ? "ragged_subframe" : dn[dev]) << " columns=" << k << " supplied=" << nf << "x" << ns << " n=" << n << " sub=" << nsub;
+    std::ostringstream a; a << "dev=" << (ragged ? "ragged_subframe" : dn[dev]) << (lateOnly ? "@one_later_frame" : "") << " columns=" << k << " supplied=" << nf << "x" << ns << " n=" << n << " sub=" << nsub;
     log.pre("analog"); Outcome oc; VF_TRY(oc, obj->analog(frames));
     log.ev("channel_column", a.str(), oc); bump("op:channel_column"); bump(std::string("coldev:") + dn[dev] + (oc.threw ? ":refused" : ":accepted"));
     if (!wild && chOverGaps) { if (!oc.threw) offSpec = true; }
     else if (!wild) {
         bump("c07_column_calls");
         bool defect = (dev >= 1 && dev <= 8) || (dev == 9 && emptyData);
-        if (defect && !oc.threw) log.viol("C07", std::string("column/defect_accepted/channel_column/") + dn[dev], std::string("analog(frames) accepted although ") + dn[dev]);
-        else if (defect && !satisfies(oc.cls, "invalid_argument")) log.viol("C07", std::string("column/wrong_class/channel_column/") + dn[dev] + "/" + oc.cls, "refused with " + oc.cls + ": " + oc.what);
+        if (defect && !oc.threw) log.viol("C07", std::string("column/defect_accepted/channel_column/") + dn[dev] + (lateOnly ? "@one_later_frame" : ""), std::string("analog(frames) accepted although ") + dn[dev] + (lateOnly ? " in one of the later supplied frames" : ""));
+        else if (defect && !satisfies(oc.cls, "invalid_argument")) log.viol("C07", std::string("column/wrong_class/channel_column/") + dn[dev] + (lateOnly ? "@one_later_frame" : "") + "/" + oc.cls, "refused with " + oc.cls + ": " + oc.what);
         else if (dev == 0 && !ragged && oc.threw) log.viol("C07", "column/valid_refused/channel_column/" + oc.cls, "valid channel column refused: " + oc.what);
         if (!oc.threw && dev == 0 && !ragged) { Snap cur = take(*obj); checkColumnRelation(*this, "channel_column", cur, std::vector<std::vector<SPoint> >(), nc); }
         if (!oc.threw && ragged) offSpec = true;
